@@ -6,17 +6,22 @@
 (*   scan  {w, done, lines}       lines emitted by the exported scanner     *)
 (*   draw  {w, sw, sh, rows}      surface returned by the widget's Draw     *)
 (*   panic {in, w} / hang {in, w} crash or watchdog expiry (observations)   *)
+(*   rscan {w, done, lines}       the same for a text of tens of thousands  *)
+(*                                of graphemes, run-length encoded: the     *)
+(*                                text is reset.rinp, judged by WrapRelRL   *)
 (* Every scan is judged by WrapRel!Why, every draw by WrapRel!DrawOK        *)
 (* against the lines of the scan event just before it (skipped when that    *)
 (* scan was rejected).                                                      *)
 EXTENDS WrapRel, TLC, Json, IOUtils
 
+RL == INSTANCE WrapRelRL
+
 Trace == ndJsonDeserialize(IOEnv.TRACE)
 
-VARIABLES l, inp, cr, lines, failed
-vars == <<l, inp, cr, lines, failed>>
+VARIABLES l, inp, rinp, cr, lines, failed
+vars == <<l, inp, rinp, cr, lines, failed>>
 
-Init == l = 1 /\ inp = <<>> /\ cr = <<>> /\ lines = <<>> /\ failed = FALSE
+Init == l = 1 /\ inp = <<>> /\ rinp = <<>> /\ cr = <<>> /\ lines = <<>> /\ failed = FALSE
 
 Reject(e, why) ==
   /\ failed' = TRUE
@@ -27,19 +32,27 @@ Next ==
   /\ l' = l + 1
   /\ LET e == Trace[l] IN
      IF e.ev = "reset" THEN
-        /\ inp' = e.inp /\ cr' = e.carriers /\ lines' = <<>> /\ failed' = FALSE
+        /\ inp' = e.inp /\ rinp' = e.rinp /\ cr' = e.carriers /\ lines' = <<>> /\ failed' = FALSE
+     ELSE IF e.ev = "rscan" THEN     \* a giant text: every width is judged on its own, nothing is drawn
+        /\ UNCHANGED <<inp, rinp, cr>> /\ lines' = <<>>
+        /\ LET why0 == RL!Why0(rinp, e.w, e.done, e.lines)
+               why == IF why0 = "letters" /\ RL!GluedRuns(rinp, e.lines, e.w) THEN "letters-glued-prefix" ELSE why0
+           IN IF why = "" THEN failed' = FALSE ELSE Reject(e, why \o ":giant")
      ELSE IF e.ev = "scan" THEN      \* every width is judged on its own
-        /\ inp' = inp /\ cr' = cr /\ lines' = e.lines
+        /\ inp' = inp /\ rinp' = rinp /\ cr' = cr /\ lines' = e.lines
         /\ LET why0 == Why(inp, e.w, e.done, e.lines)
                \* the scanner cut the space off an isolated accent and nothing else differs: recorded finding
-               why == IF why0 = "conserve" /\ cr # <<>> /\ ConservedCore(inp, e.lines, cr) THEN "conserve-carrier-space-cut" ELSE why0
+               \* a run of letters was split right behind something glued to it: told apart from other splits
+               why == IF why0 = "conserve" /\ cr # <<>> /\ ConservedCore(inp, e.lines, cr) THEN "conserve-carrier-space-cut"
+                      ELSE IF why0 = "letters" /\ GluedRuns(inp, e.lines, e.w) THEN "letters-glued-prefix"
+                      ELSE why0
            IN IF why = "" THEN failed' = FALSE ELSE Reject(e, why)
-     ELSE IF failed THEN UNCHANGED <<inp, cr, lines, failed>>
+     ELSE IF failed THEN UNCHANGED <<inp, rinp, cr, lines, failed>>
      ELSE IF e.ev = "draw" THEN
-        /\ UNCHANGED <<inp, cr, lines>>
+        /\ UNCHANGED <<inp, rinp, cr, lines>>
         /\ IF DrawOK(lines, e.rows, e.sw, e.sh) THEN UNCHANGED failed ELSE Reject(e, "draw")
      ELSE  \* panic, hang, anything else the oracle has no step for
-        /\ UNCHANGED <<inp, cr, lines>>
+        /\ UNCHANGED <<inp, rinp, cr, lines>>
         /\ Reject(e, e.ev \o ":" \o e.in)
 
 Spec == Init /\ [][Next]_vars
